@@ -17,11 +17,11 @@ ASSUMPTIONS = [
     "when several enabled rules target one market the tightest band decides (each rule clips in turn, the bands are nested around the same p0)",
 ]
 REQUIRED = {
-    "quick": {"orders_judged": 20000, "class/target_far_above": 500, "class/target_far_below": 500,
+    "quick": {"orders_judged": 12000, "class/target_far_above": 500, "class/target_far_below": 500,
               "class/target_on_edge": 200, "class/target_inside": 1000, "class/target_market_order": 100,
               "class/non_target_outside_band": 1000, "class/disabled_rule_order": 200,
               "trades_on_target_checked": 500},
-    "thorough": {"orders_judged": 600000, "class/target_far_above": 15000, "class/target_far_below": 15000,
+    "thorough": {"orders_judged": 400000, "class/target_far_above": 15000, "class/target_far_below": 15000,
                  "class/target_on_edge": 6000, "class/target_inside": 30000, "class/target_market_order": 3000,
                  "class/non_target_outside_band": 30000, "class/disabled_rule_order": 6000,
                  "trades_on_target_checked": 15000},
